@@ -973,6 +973,48 @@ def linked_shards_probe(ctx, rep, mine):
     shutil.rmtree(wd, ignore_errors=True)
 
 
+def refused_removal_probe(ctx, rep, mine):
+    """delete / clean while ONE removal is refused by the file system (EACCES, EPERM, EROFS on one object - the first, second, ...
+    removal of the command): the backend may retry it or the command may fail, but what is still listed afterwards must still have
+    all its chunks, and a command that reports success has done its job."""
+    rng = random.Random(ctx.rng.randint(0, 2 ** 31))
+    for trial in range(3):
+        wd = Path(ctx.scratch) / f'cli-refused-{trial}'
+        shutil.rmtree(wd, ignore_errors=True)
+        wd.mkdir(parents=True)
+        sc = Scenario(rng.randint(0, 2 ** 31), wd, 'plain', 0)
+        sc.encrypted = trial == 1
+        sc.dep.cache = None
+        try:
+            sc.setup()
+            u = sc.users[0]
+            for _ in range(2):
+                args, files = sc.make_files(u)
+                sc.op_snapshot(u, args, files)
+            victim = sorted(sc.snaps)[0]
+            inject = [{'fn': 'unlink', 'k': trial, 'when': 'before', 'action': ['EACCES', 'EPERM', 'EROFS'][trial]}]
+            before, _ = sc.dep.disk()
+            res = sc.dep.run('delete', '--yes', victim, user=u, inject=inject)
+            after, _ = sc.dep.disk()
+            rep.case(('refused-removal', trial, res.rc), nontrivial=True)
+            rep.count('refused_removal_probe')
+            what = f'delete while removal #{trial} is refused once ({inject[0]["action"]})'
+            sc.restorable_check(what, after)
+            if res.ok:
+                if sc.snaps[victim]['path'] in after:
+                    sc.v('gc_incomplete', f'{what}: the command exits with status 0 but the snapshot object is still there')
+                only = sc.snaps[victim]['chunk_paths'] - sc.referenced(after)
+                if only & set(after):
+                    sc.v('gc_incomplete', f'{what}: the command exits with status 0 but left {len(only & set(after))} chunk(s) only the deleted snapshot referenced')
+        except Scenario.Stop:
+            pass
+        for v in sc.viol:
+            v['replay'] = {'probe': 'refused_removal'}
+            if v['signature']['kind'] in mine:
+                rep.violations.append(v)
+        shutil.rmtree(wd, ignore_errors=True)
+
+
 def run_scenarios(ctx, rep, plan, mine, nops=9, encrypted=None):
     """plan: {kind: count}; kinds: 'plain', 'kill', 'oserror', 'corrupt'.  Violations whose kind is in `mine` are kept."""
     jobs = []
@@ -1027,6 +1069,9 @@ def replay_cli(ctx, obj, mine):
         viol = [v for v in replay_scenario(ctx, r) if v['signature']['kind'] in mine]
     elif r.get('probe') == 'termination':
         termination_probe(ctx, rep, {r.get('command', 'delete')})
+        viol = rep.violations
+    elif r.get('probe') == 'refused_removal':
+        refused_removal_probe(ctx, rep, mine)
         viol = rep.violations
     elif r.get('probe') == 'linked_shards':
         linked_shards_probe(ctx, rep, mine)
